@@ -330,8 +330,25 @@ def outputs(name, versions, user_t=True):
     }
 
 
+def samestem():
+    """targets that differ only in their last extension (hello / hello.o, rep.html / rep.txt): each has its own temporary
+    output file; `hello` has already written $3 when it asks for hello.o, the two rep.* are built side by side"""
+    return {
+        'name': 'samestem',
+        'plain': ['s', 'hello', 'hello.o', 'rep.html', 'rep.txt'],
+        'rules': {'hello.o.do': [{'hello.o': [ifchange('s'), out('file', 's')]}],
+                  'hello.do': [{'hello': [out('file', 's'), ifchange('hello.o')]}],
+                  'rep.html.do': [{'rep.html': [ifchange('s'), out('file', 's')]}],
+                  'rep.txt.do': [{'rep.txt': [ifchange('s'), out('file', 's')]}]},
+        'init': ['s', 'hello.o.do', 'hello.do', 'rep.html.do', 'rep.txt.do'],
+        'cmds': [('ifchange', ['hello'], False), ('redo', ['rep.html', 'rep.txt'], False, 2)],
+        'user': ['s'], 'rm': [], 'doedits': [], 'bounds': (3, 2), 'sample_n': 60,
+    }
+
+
 def output_family():
     return [complete(p) for p in [
+        samestem(),
         outputs('outA', [('stdout', 0), ('both', 0), ('file', 0)]),
         outputs('outB', [('file', 0), ('direct', 0), ('stdout', 0)]),
         outputs('outC', [('stdout', 0), ('stdout', 3), ('nothing', 0)]),
@@ -381,6 +398,21 @@ def override3():
         'cmds': [('ifchange', ['h'], False), ('ood', [], False)],
         'user': ['g'], 'rm': [], 'doedits': [],
         'bounds': (7, 5),
+    }
+
+
+def override_rm_q():
+    """a generated target edited by hand (override), then removed (the documented way of handing it back to redo), with the
+    queries asked before the next build: the vanished overridden file is a target that is out of date, not a source"""
+    return {
+        'name': 'override_rm_q',
+        'plain': ['s', 'g', 'h'],
+        'rules': {'g.do': [{'g': [ifchange('s'), out('stdout', 's')]}],
+                  'h.do': [{'h': [ifchange('g'), out('stdout', 'g')]}]},
+        'init': ['s', 'g.do', 'h.do'],
+        'cmds': [('ifchange', ['h'], False), ('targets', [], False), ('sources', [], False)],
+        'user': ['g'], 'rm': ['g'], 'doedits': [],
+        'bounds': (5, 3), 'sample_n': 400,
     }
 
 
@@ -792,13 +824,21 @@ def pair_family():
             'init': ['s', 'bad.do', 'ok.do', 'top.do'], 'cmds': [(I, ['top'], False)],
             'pairs': [((I, ['top'], False), (I, ['bad'], False)), ((I, ['top'], False), (I, ['ok', 'bad'], True))],
             'user': [], 'rm': [], 'doedits': ['bad.do'], 'bounds': (2, 4)}
+    # one command finds `ok` locked by the other, queues it, and learns of the failure of `bad` while it waits: without
+    # --keep-going it must not start `ok` afterwards
+    lockfail = {'name': 'pair_lockfail', 'plain': ['s', 'bad', 'ok'],
+                'rules': {'bad.do': [{'bad': [ifchange('s'), exit_(3)]}],
+                          'ok.do': [{'ok': [ifchange('s'), out('stdout', 's')]}]},
+                'init': ['s', 'bad.do', 'ok.do'], 'cmds': [(I, ['ok'], False)],
+                'pairs': [((R, ['ok', 'bad'], False), (R, ['ok'], False)), ((R, ['ok', 'bad'], True), (R, ['ok'], False))],
+                'user': [], 'rm': [], 'doedits': [], 'bounds': (1, 2), 'repeat': 10}
     alw = {'name': 'pair_always', 'plain': ['s', 'al', 'top'],
            'rules': {'al.do': [{'al': [always(), ifchange('s'), out('stdout', 's')]}],
                      'top.do': [{'top': [ifchange('al'), out('stdout', 'al')]}]},
            'init': ['s', 'al.do', 'top.do'], 'cmds': [(I, ['top'], False)],
            'pairs': [((I, ['top'], False), (I, ['top'], False)), ((I, ['top'], False), (I, ['al'], False))],
            'user': ['s'], 'rm': [], 'doedits': [], 'bounds': (2, 4)}
-    return [complete(dict(p, no_viewer=True)) for p in [chain, stampp, dia, fail, alw]]
+    return [complete(dict(p, no_viewer=True)) for p in [chain, stampp, dia, fail, lockfail, alw]]
 
 
 # dependency cycles ---------------------------------------------------------------------------
@@ -873,13 +913,17 @@ def crash_family(window=False, stamp_window=False):
     out_ = []
     base = [chain(), stamped(1, 'plain'), outputs('outfile', [('file', 0), ('stdout', 0)], user_t=False), ifcreate_prog(),
             dict(outputs('outdir', [('dirout', 0)], user_t=False), user=[]),
-            outputs('outdird', [('dirdirect', 0)], user_t=False)]
+            outputs('outdird', [('dirdirect', 0)], user_t=False),
+            # what an earlier killed run may have left at $3: a partial file or a dangling symbolic link (step `tmp`)
+            dict(outputs('staletmp', [('file', 0)], user_t=False), tmpfiles=['t'])]
     if stamp_window:
         # the user writes the checksummed target by hand after a kill that fell between its redo-stamp and the recording
         # of its first build (a generated record without a stamp, and a file that redo did not make)
         sh = stamped(1, 'plain')
         sh['name'] = 'stamphand'
         sh['user'] = ['mid']
+        sh['repeat'] = 6          # (the kill point moves with the run number: six different ones per history)
+        sh['sample_n'] = 60
         base.append(sh)
     for p in base:
         p = dict(p)
@@ -892,12 +936,12 @@ def crash_family(window=False, stamp_window=False):
         p['doedits'] = []
         p['max_crash'] = 1
         p['crash_window'] = window
-        p['bounds'] = (4, 3) if p['user'] else (3, 3)      # (without user steps a history has at most MaxCmds entries)
+        p['bounds'] = (4, 3) if (p['user'] or p.get('tmpfiles')) else (3, 3)      # (without user steps a history has at most MaxCmds entries)
         out_.append(complete(p))
     return out_
 
 
-FAMILY_DEEP = [stamp_diamond, stamp_chain2, override3, subdirs_cwd, alias_prog, fail_kinds, ifcreate_link, symlink_prog, symlink_stamped, nodir_prog, always2, fail_diamond, override2, stamp_toggle, stamped_deep, ifcreate_deep, do_recreate, subdirs, fan_shared, fail_memo]
+FAMILY_DEEP = [override_rm_q, stamp_diamond, stamp_chain2, override3, subdirs_cwd, alias_prog, fail_kinds, ifcreate_link, symlink_prog, symlink_stamped, nodir_prog, always2, fail_diamond, override2, stamp_toggle, stamped_deep, ifcreate_deep, do_recreate, subdirs, fan_shared, fail_memo]
 
 
 def deep_programs():
